@@ -7,6 +7,7 @@ require (
 	github.com/gopacket/gopacket v1.6.1
 	github.com/scionproto/scion v0.0.0
 	golang.org/x/crypto v0.52.0
+	google.golang.org/protobuf v1.36.11
 	pgregory.net/rapid v1.3.0
 )
 
@@ -51,7 +52,6 @@ require (
 	golang.org/x/text v0.37.0 // indirect
 	google.golang.org/genproto/googleapis/rpc v0.0.0-20260414002931-afd174a4e478 // indirect
 	google.golang.org/grpc v1.82.1 // indirect
-	google.golang.org/protobuf v1.36.11 // indirect
 	gopkg.in/yaml.v3 v3.0.1 // indirect
 	zgo.at/zcache/v2 v2.1.0 // indirect
 )
